@@ -11,16 +11,17 @@ theorem chRead_err_state (s s' : St) (e : Err) (h : chRead s = (.err e, s')) :
   · simp at h; rw [← h.2]; exact ⟨rfl, rfl, rfl, rfl⟩
   · split at h <;> simp at h
 
-/-- bytes `Driver.read` holds or can still be given -/
-def nbudget (n : NSt) : Nat := n.ch.left + n.nb.length + n.ch.q.flatten.length
-
-/-- invariant of an RPC whose reply the loss cuts short: the delimiter matcher first fires exactly
-    at the end of the complete reply, fewer bytes than that can ever arrive, and nothing is stored
-    under the RPC's message-id -/
+/-- invariant of an RPC whose reply the loss cuts short: the delimiter matcher fires on no prefix
+    of the reply stream that can still be delivered (in particular when it first fires exactly at
+    the end of the complete reply and fewer bytes than that can arrive, `ninv_of_exact`), and
+    nothing is stored under the RPC's message-id -/
 structure NInv (msgP : Bytes → Bool) (n : NSt) (r : Rpc) : Prop where
-  exact : ExactAt msgP (nunread n r)
-  starved : nbudget n < (nunread n r).length
+  nofire : ∀ j, j ≤ nbudget n → msgP ((nunread n r).take j) = false
   noreply : n.store.lookup r.mid = none
+
+theorem ninv_of_exact (msgP : Bytes → Bool) (n : NSt) (r : Rpc) (he : ExactAt msgP (nunread n r))
+    (hs : nbudget n < (nunread n r).length) (hn : n.store.lookup r.mid = none) : NInv msgP n r :=
+  ⟨fun j hj => he.2 j (by omega), hn⟩
 
 theorem ninv_rdr (msgP : Bytes → Bool) (n : NSt) (r : Rpc) (h : NInv msgP n r) :
     NInv msgP { n with ch := rstep n.ch } r := by
@@ -30,7 +31,7 @@ theorem ninv_rdr (msgP : Bytes → Bool) (n : NSt) (r : Rpc) (h : NInv msgP n r)
   have hb : nbudget { n with ch := rstep n.ch } = nbudget n := by
     have := rstep_budget n.ch
     simp only [nbudget]; omega
-  exact ⟨by rw [hu]; exact h.exact, by rw [hu, hb]; exact h.starved, h.noreply⟩
+  exact ⟨by rw [hu, hb]; exact h.nofire, h.noreply⟩
 
 theorem ninv_fwd (msgP : Bytes → Bool) (idOf : Bytes → Nat) (n : NSt) (r : Rpc) (h : NInv msgP n r) :
     NInv msgP (nstep msgP idOf n) r := by
@@ -42,7 +43,9 @@ theorem ninv_fwd (msgP : Bytes → Bool) (idOf : Bytes → Nat) (n : NSt) (r : R
       obtain ⟨h1, h2, h3, _⟩ := chRead_err_state n.ch s' e hr
       have hu : nunread { n with ch := s', fwd := some e } r = nunread n r := by
         simp only [nunread, h1, h2]
-      exact ⟨by rw [hu]; exact h.exact, by rw [hu]; simpa [nbudget, h1, h3] using h.starved, h.noreply⟩
+      have hb : nbudget { n with ch := s', fwd := some e } = nbudget n := by
+        simp only [nbudget, h1, h3]
+      exact ⟨by rw [hu, hb]; exact h.nofire, h.noreply⟩
     · rename_i s' hr
       obtain ⟨h1, _, _⟩ := chRead_nil n.ch s' hr
       subst h1
@@ -52,24 +55,18 @@ theorem ninv_fwd (msgP : Bytes → Bool) (idOf : Bytes → Nat) (n : NSt) (r : R
       have hu : nunread n r = (n.nb ++ c) ++ (s'.q.flatten ++ s'.pending.flatten ++
           (r.writes.map (·.2.flatten)).flatten) := by
         rw [hs']; simp [nunread, hq]
-      split
-      · rename_i hP
-        exfalso
-        have hex := h.exact
-        rw [hu] at hex
-        have hnil := exactAt_prefix msgP _ _ hex hP
-        have hst := h.starved
-        rw [hu, hnil] at hst
-        simp only [nbudget, hq, List.flatten_cons, List.length_append, List.append_nil] at hst
-        omega
-      · have hu' : nunread { n with ch := s', nb := n.nb ++ c } r = nunread n r := by
-          rw [hu]; simp [nunread]
-        refine ⟨by rw [hu']; exact h.exact, ?_, h.noreply⟩
-        rw [hu']
-        have hst := h.starved
-        have hl : s'.left = n.ch.left := by rw [hs']
-        simp only [nbudget, hq, hl, List.flatten_cons, List.length_append] at hst ⊢
-        omega
+      have hl : s'.left = n.ch.left := by rw [hs']
+      have hfalse : msgP (n.nb ++ c) = false := by
+        have := h.nofire (n.nb ++ c).length (by
+          simp only [nbudget, hq, List.flatten_cons, List.length_append]; omega)
+        rw [hu, List.take_left' rfl] at this
+        exact this
+      rw [if_neg (by rw [hfalse]; simp)]
+      have hu' : nunread { n with ch := s', nb := n.nb ++ c } r = nunread n r := by
+        rw [hu]; simp [nunread]
+      have hb : nbudget { n with ch := s', nb := n.nb ++ c } = nbudget n := by
+        simp only [nbudget, hq, hl, List.flatten_cons, List.length_append]; omega
+      exact ⟨by rw [hu', hb]; exact h.nofire, h.noreply⟩
 
 theorem rpcStep_inl (p : Bool) (n n' : NSt) (r r' : Rpc) (h : rpcStep p n r = (n', .inl r')) :
     (∃ b react ws s', r.writes = (b, react) :: ws ∧ chWrite n.ch b react = (true, s') ∧
@@ -114,9 +111,8 @@ theorem ninv_rpc (msgP : Bytes → Bool) (p : Bool) (n n' : NSt) (r r' : Rpc) (h
     subst hn; subst hr
     have hu : nunread { n with ch := s' } { r with writes := ws } = nunread n r := by
       simp [nunread, h1, h2, hw]
-    refine ⟨⟨by rw [hu]; exact h.exact, ?_, h.noreply⟩, rfl, by simp [hw], rfl, h4, h3⟩
-    rw [hu]
-    simpa [nbudget, h2, h3] using h.starved
+    have hb : nbudget { n with ch := s' } = nbudget n := by simp only [nbudget, h2, h3]
+    exact ⟨⟨by rw [hu, hb]; exact h.nofire, h.noreply⟩, rfl, by simp [hw], rfl, h4, h3⟩
   · subst hn; subst hr
     exact ⟨h, rfl, Nat.le_refl _, rfl, rfl, rfl⟩
 
